@@ -29,6 +29,8 @@ struct Parked {
 }
 
 static ACTIVE: AtomicBool = AtomicBool::new(false);
+/// number of own host calls (goal state / IMDS) the mock still answers with 403 in this execution
+static REJECT: std::sync::atomic::AtomicI64 = std::sync::atomic::AtomicI64::new(0);
 static SEQ: AtomicU64 = AtomicU64::new(0);
 static PARKED: Mutex<Vec<Parked>> = Mutex::new(Vec::new());
 
@@ -73,7 +75,12 @@ fn wait_until<F: FnMut() -> bool>(mut f: F, what: &str) {
 }
 
 fn run_schedule(w: &World, threads: &[Th], prefix: &[usize], sport: &mut u16, root_pid: u32) -> Exec {
+    run_schedule_r(w, threads, prefix, sport, root_pid, 0)
+}
+
+fn run_schedule_r(w: &World, threads: &[Th], prefix: &[usize], sport: &mut u16, root_pid: u32, reject: i64) -> Exec {
     ACTIVE.store(false, Ordering::SeqCst);
+    REJECT.store(reject, Ordering::SeqCst);
     PARKED.lock().unwrap().clear();
     w.set_key(Some(K1));
     let kk = w.shared.get_key_keeper_shared_state();
@@ -213,24 +220,36 @@ fn main() {
     let mut res = EngineResult::new("C10");
     install_hook();
     let root_pid = w.spawn_proc("/usr/bin/vt-waagent", &["100000"], None);
-    w.hosts.ws.set_responder(Arc::new(|_m: &Msg, _c, _i| Action::Reply(vec![simple_response(200, &[("Content-Type", "application/json")], b"{}")])));
+    let resp: vcommon::rawhttp::Responder = Arc::new(|m: &Msg, _c, _i| {
+        let own = m.target().contains("goalstate") || m.target().starts_with("/metadata/instance");
+        if own && REJECT.fetch_sub(1, Ordering::SeqCst) > 0 {
+            return Action::Reply(vec![simple_response(403, &[], b"")]);
+        }
+        Action::Reply(vec![simple_response(200, &[("Content-Type", "application/json")], b"{}")])
+    });
+    w.hosts.ws.set_responder(resp.clone());
+    w.hosts.imds.set_responder(resp);
     let mut keys: HashMap<String, String> = HashMap::new();
     for k in [K1, K2, K3] {
         keys.insert(k.0.into(), k.1.into());
     }
     let mut sport = 48000u16;
 
-    let mut families: Vec<Vec<Th>> = vec![vec![Th::K, Th::S1], vec![Th::K, Th::S2], vec![Th::K, Th::S3], vec![Th::K, Th::S1, Th::S2]];
+    // (threads, number of own host calls the mock rejects with 403 first)
+    let mut families: Vec<(Vec<Th>, i64)> = vec![(vec![Th::K, Th::S1], 0), (vec![Th::K, Th::S2], 0), (vec![Th::K, Th::S3], 0), (vec![Th::K, Th::S1, Th::S2], 0), (vec![Th::K, Th::S1, Th::S1b], 0), (vec![Th::K, Th::S2], 1), (vec![Th::K, Th::S3], 1)];
     if thorough {
-        families.push(vec![Th::K, Th::S1, Th::S2, Th::S3]);
-        families.push(vec![Th::K, Th::S1, Th::S1b, Th::S2]);
+        families.push((vec![Th::K, Th::S1, Th::S2, Th::S3], 0));
+        families.push((vec![Th::K, Th::S1, Th::S1b, Th::S2], 0));
+        families.push((vec![Th::K, Th::S2, Th::S3], 2));
+        families.push((vec![Th::K, Th::S1, Th::S2], 1));
     }
     if let Ok(path) = std::env::var("VERIF_REPLAY") {
         let doc: Value = serde_json::from_str(&std::fs::read_to_string(path).unwrap()).unwrap();
         let fam: Vec<Th> = doc["case"]["threads"].as_array().unwrap().iter().map(|t| match t.as_str().unwrap() { "K" => Th::K, "S1" => Th::S1, "S1b" => Th::S1b, "S2" => Th::S2, _ => Th::S3 }).collect();
         let prefix: Vec<usize> = doc["case"]["choices"].as_array().unwrap().iter().map(|c| c.as_u64().unwrap() as usize).collect();
-        let e = run_schedule(&w, &fam, &prefix, &mut sport, root_pid);
-        judge(&mut res, &fam, &prefix, &e, &keys, &mut BTreeMap::new());
+        let reject = doc["case"]["host_rejects_first"].as_i64().unwrap_or(0);
+        let e = run_schedule_r(&w, &fam, &prefix, &mut sport, root_pid, reject);
+        judge(&mut res, &fam, reject, &prefix, &e, &keys, &mut BTreeMap::new());
         res.cov("states", 1);
         res.cov("transitions", e.order.len() as u64);
         res.cov("traces_validated_against_impl", 1);
@@ -240,8 +259,8 @@ fn main() {
 
     // determinism gate
     {
-        let a = run_schedule(&w, &families[3], &[], &mut sport, root_pid);
-        let b = run_schedule(&w, &families[3], &[], &mut sport, root_pid);
+        let a = run_schedule(&w, &families[3].0, &[], &mut sport, root_pid);
+        let b = run_schedule(&w, &families[3].0, &[], &mut sport, root_pid);
         let f = |e: &Exec| format!("{:?}{:?}{:?}", e.order, e.alternatives, e.requests.iter().map(|m| m.header(hostcheck::AUTHZ)).collect::<Vec<_>>());
         if f(&a) != f(&b) {
             vcommon::result::machinery(&format!("determinism gate: the default schedule gave different observations:\n{}\n{}", f(&a), f(&b)));
@@ -252,16 +271,16 @@ fn main() {
     let mut transitions = 0u64;
     let mut pairings: BTreeMap<String, u64> = BTreeMap::new();
     let mut per_family: Vec<Value> = Vec::new();
-    for fam in &families {
+    for (fam, reject) in &families {
         // DFS over choice vectors
         let mut stack: Vec<Vec<usize>> = vec![vec![]];
         let mut n = 0u64;
         while let Some(prefix) = stack.pop() {
-            let e = run_schedule(&w, fam, &prefix, &mut sport, root_pid);
+            let e = run_schedule_r(&w, fam, &prefix, &mut sport, root_pid, *reject);
             n += 1;
             schedules += 1;
             transitions += e.order.len() as u64;
-            judge(&mut res, fam, &prefix, &e, &keys, &mut pairings);
+            judge(&mut res, fam, *reject, &prefix, &e, &keys, &mut pairings);
             if schedules <= 2 {
                 res.sample(json!({"threads": fam.iter().map(|t| format!("{:?}", t)).collect::<Vec<_>>(), "order_of_key_actor_operations": e.order.iter().map(|t| format!("{:?}", t)).collect::<Vec<_>>(), "authorization_headers_at_host": e.requests.iter().map(|m| m.header(hostcheck::AUTHZ)).collect::<Vec<_>>()}));
             }
@@ -278,7 +297,7 @@ fn main() {
                 break;
             }
         }
-        per_family.push(json!({"threads": fam.iter().map(|t| format!("{:?}", t)).collect::<Vec<_>>(), "schedules": n}));
+        per_family.push(json!({"threads": fam.iter().map(|t| format!("{:?}", t)).collect::<Vec<_>>(), "host_rejects_first": reject, "schedules": n}));
     }
     for p in world::take_panics() {
         res.violation("panic", &p, json!({"note": "panic during exploration"}));
@@ -290,17 +309,17 @@ fn main() {
     res.cov("schedules_per_family", json!(per_family));
     res.cov("distinct_id_secret_pairings_observed", json!(pairings));
     res.cov("exhaustive", true);
-    res.cov("rule", "every interleaving of the key-actor operations of: K = [update_key(K2), clear_key, update_key(K3)] (starting from K1 latched), S1 = a proxied request (real listener, real sockets), S2 = WireServerClient::get_goalstate, S3 = ImdsClient::get_imds_instance_info (thorough: also all four together and two proxied requests); each operation parks at the guarded scheduling point in KeyKeeperSharedState::get_key/set_key and is released one at a time; states = complete schedules, transitions = released operations; every request the mock host receives is verified from its raw bytes under the key registered for the announced id".to_string());
+    res.cov("rule", "every interleaving of the key-actor operations of: K = [update_key(K2), clear_key, update_key(K3)] (starting from K1 latched), S1 = a proxied request (real listener, real sockets), S2 = WireServerClient::get_goalstate, S3 = ImdsClient::get_imds_instance_info (thorough: also all four together and two proxied requests); also with the mock rejecting the first own host call(s) with 403 (retry paths); each operation parks at the guarded scheduling point in KeyKeeperSharedState::get_key/set_key and is released one at a time; states = complete schedules, transitions = released operations; every request the mock host receives is verified from its raw bytes under the key registered for the announced id".to_string());
     res.assume("all cross-task state of the key lives in the key-keeper actor, whose handlers contain no await: the order of actor operations determines the behaviour");
     std::process::exit(res.finish());
 }
 
-fn judge(res: &mut EngineResult, fam: &[Th], prefix: &[usize], e: &Exec, keys: &HashMap<String, String>, pairings: &mut BTreeMap<String, u64>) {
+fn judge(res: &mut EngineResult, fam: &[Th], reject: i64, prefix: &[usize], e: &Exec, keys: &HashMap<String, String>, pairings: &mut BTreeMap<String, u64>) {
     let mut choices: Vec<usize> = prefix.to_vec();
     choices.extend(std::iter::repeat(0).take(e.order.len().saturating_sub(prefix.len())));
-    let case = json!({"threads": fam.iter().map(|t| format!("{:?}", t)).collect::<Vec<_>>(), "choices": choices, "order": e.order.iter().map(|t| format!("{:?}", t)).collect::<Vec<_>>()});
+    let case = json!({"threads": fam.iter().map(|t| format!("{:?}", t)).collect::<Vec<_>>(), "host_rejects_first": reject, "choices": choices, "order": e.order.iter().map(|t| format!("{:?}", t)).collect::<Vec<_>>()});
     let expected_reqs = fam.iter().filter(|t| **t != Th::K).count();
-    if e.requests.len() != expected_reqs {
+    if e.requests.len() < expected_reqs {
         res.violation("request-missing", &format!("{} of {} requests reached the host; client statuses {:?}", e.requests.len(), expected_reqs, e.client_status), case.clone());
     }
     for m in &e.requests {
